@@ -510,13 +510,14 @@ class ThreadPool(object):
 
                 # Clean up thread if necessary
                 with self.__lock:
-                    extra_threads = self.__nb_threads - self.__nb_active_threads
                     if (
                         self.__nb_threads > self._min_threads
-                        and extra_threads > self._queue.qsize()
+                        and self.__nb_threads > self._queue.unfinished_tasks
                     ):
                         # No more work for this thread
-                        # if there are more non active_thread than task
+                        # if there are more threads than unfinished tasks
+                        # (queued, being executed or just taken from the
+                        # queue by a thread not yet marked as active)
                         # and we're above the  minimum number of threads:
                         # stop this one
                         self.__nb_threads -= 1
